@@ -1,13 +1,30 @@
+(* USES cosim *)
 (* C01/C02 driver.  Lines:
      merge <npay> | <ints of input> | <ints of second>     -> the ints of the merged array (model of sc_notify_merge)
+     prog <typ> <P> <me> <ntop> <nint> <nbot> <sorted> <haspay> <sz> <eager> <receivers> <items> | <events>
+                                                           -> OK / MISMATCH ... (co-simulation of notify_prog)
+       receivers: comma separated, "-" when empty; items: one per receiver, separated by '/', bytes comma separated
    Integers are hexadecimal, negative with a leading '-'. *)
 let ints s = List.map z_of_hex (words s)
 let show l = if l = [] then "-" else String.concat " " (List.map hex_of_z l)
+let items s = if s = "-" || s = "" then [] else List.map pl_of_string (String.split_on_char '/' s)
 let () = iter_lines (fun line ->
   if String.trim line = "" then () else
-  match String.split_on_char '|' line with
-  | [hd; a; b] ->
-    (match words hd with
-     | ["merge"; np] -> print_endline (show (notify_merge (z_of_hex np) (ints a) (ints b)))
+  match words line with
+  | "merge" :: _ ->
+    (match String.split_on_char '|' line with
+     | [hd; a; b] ->
+       (match words hd with
+        | ["merge"; np] -> print_endline (show (notify_merge (z_of_hex np) (ints a) (ints b)))
+        | _ -> print_endline "BAD")
      | _ -> print_endline "BAD")
+  | "prog" :: _ ->
+    let (ps, evs) = split_line line in
+    (match ps with
+     | [_; typ; p; me; ntop; nint; nbot; sorted; haspay; sz; eager; r; its] ->
+       let z = z_of_hex in
+       let pays = if haspay = "1" then Some (items its) else None in
+       let prog = notify_prog (z typ) (z p) (z me) (z ntop) (z nint) (z nbot) (sorted = "1") (pl_of_string r) pays (z sz) (eager = "1") in
+       print_endline (try cosim prog evs with e -> "MISMATCH exception " ^ Printexc.to_string e)
+     | _ -> print_endline "BAD_PARAMS")
   | _ -> print_endline "BAD")
